@@ -84,7 +84,8 @@ def run(chk):
         nn = rng.randint(4, 12)
         slow = rng.sample(range(nn // 2), rng.choice([1, 1, 2]))
         bf.append({'seed': rng.randint(0, 10 ** 6), 'pool': {'n_jobs': nj, 'start_method': rng.choice(['fork', 'threading'])},
-                   'ops': [{'op': rng.choice(['imap', 'imap', 'map']), 'n': nn, 'chunk_size': rng.choice([1, 1, 2]), 'elem': 'scalar', 'ret': 'falsy',
+                   'ops': [{'op': rng.choice(['imap', 'imap', 'map', 'map_unordered', 'imap_unordered']), 'n': nn, 'chunk_size': rng.choice([1, 1, 2]), 'elem': 'scalar',
+                            'ret': rng.choice(['falsy', 'falsy', 'odd_strings']),
                             'dur': {'kind': 'map', 'map': {str(i): rng.choice([0.2, 0.5]) for i in slow}, 'default': 0.01}}]})
     run_scenarios(chk, 'falsy results waiting in the reorder buffer behind a slow task (DetSim)', bf, {'C01'}, nontrivial=lambda sc, o: True,
                   dist=lambda sc, o: {'op': sc['ops'][0]['op'], 'n_jobs': sc['pool']['n_jobs']})
